@@ -1,5 +1,5 @@
 (* c16_driver.ml — runs the extracted C16 object-state machine on request lines.
-   request : key <K|H> <kind> <op,op,...|->      |  wk <kind> <op,...|->
+   request : key <K|H> <kind> <op,op,...|->      |  wk <kind> <op,...|->   |  wal <conf> <op,...|->
    response: one token for the initial state and one per operation, space separated:
              <ok|err>:<output taint P|S|->:<compressed 0|1>:<one code per field A|N|P|S>          *)
 module M = C16_model
@@ -15,7 +15,7 @@ let kind_of = function
   | _ -> failwith "kind"
 
 let op_of = function
-  | "Wif" -> M.OWif | "Address" -> M.OAddress | "AddressUnc" -> M.OAddressUnc | "Hash160" -> M.OHash160
+  | "Wif" | "WifAlt" -> M.OWif | "Address" -> M.OAddress | "AddressUnc" -> M.OAddressUnc | "Hash160" -> M.OHash160
   | "UncHex" -> M.OUncHex | "UncByte" -> M.OUncByte | "Point" -> M.OPoint
   | "AsDict0" -> M.OAsDict false | "AsDict1" -> M.OAsDict true
   | "AsJson0" -> M.OAsJson false | "AsJson1" -> M.OAsJson true
@@ -36,6 +36,36 @@ let wop_of = function
   | "Key" -> M.WKey | "Public" -> M.WPublic | "AsDict0" -> M.WAsDict false | "AsDict1" -> M.WAsDict true
   | "Repr" -> M.WRepr | "Balance" -> M.WBalance | "Name" -> M.WName
   | _ -> failwith "wop"
+
+let wconf_of = function
+  | "master" -> M.WcMaster | "acctprv" -> M.WcAcctPriv | "acctpub" -> M.WcAcctPub
+  | "single" -> M.WcSinglePriv | "singlepub" -> M.WcSinglePub
+  | _ -> failwith "wconf"
+
+let walconf_of c =
+  match String.split_on_char ':' c with
+  | ["ms"; cs; _own] -> M.CMulti (List.map wconf_of (String.split_on_char '+' cs))
+  | [c] -> M.CSimple (wconf_of c)
+  | _ -> failwith "walconf"
+
+let wlop_of = function
+  | "MainKey" | "MainWif" | "MainWifKey" | "MainEncrypt" -> M.LMainKey
+  | "SrcKey" -> M.LSrcKey | "MainPublic" -> M.LMainPublic
+  | "Pm0" -> M.LPm false | "Pm1" -> M.LPm true | "PmKey" -> M.LPmKey
+  | "Wif0" -> M.LWif false | "Wif1" -> M.LWif true
+  | "AsDict0" | "AsJson0" -> M.LAsDict false | "AsDict1" | "AsJson1" -> M.LAsDict true
+  | "Info" -> M.LInfo | "Repr" -> M.LRepr
+  | "GetKey" | "NewKey" | "Keys" | "Sign" | "NewAccount" | "NewKeyNet" | "NewKeyWt" | "ImportKey" -> M.LOther
+  | "Reopen" -> M.LReopen
+  | _ -> failwith "wlop"
+
+let rec nat_of n = if n <= 0 then M.O else M.S (nat_of (n - 1))
+
+let walop_of s =
+  match String.index_opt s '.' with
+  | Some j when String.length s > 1 && s.[0] = 'c' ->
+      M.WCos (nat_of (int_of_string (String.sub s 1 (j - 1))), wlop_of (String.sub s (j + 1) (String.length s - j - 1)))
+  | _ -> M.WTop (wlop_of s)
 
 let ops_of t = if t = "-" then [] else String.split_on_char ',' t
 let b01 b = if b then "1" else "0"
@@ -62,6 +92,19 @@ let dispatch = function
             let t = taint (M.out_taint (M.wexports o k)) in
             go k' (tok ok t k' (codes (M.wk_codes k')) :: acc) r in
       String.concat " " (go k0 [tok true "-" k0 (codes (M.wk_codes k0))] (ops_of ops))
+  | ["wal"; conf; ops] ->
+      let w0 = M.wal_init (walconf_of conf) in
+      let mains w = String.concat "/" (List.map (fun k -> codes (M.wk_codes k)) (M.wal_mains w)) in
+      let rec go w acc = function
+        | [] -> List.rev acc
+        | o :: r ->
+            let o = walop_of o in
+            let w' = M.wal_step o w in
+            let t = taint (M.out_taint (M.wal_exports o w)) in
+            let rets = M.wal_returns o w in
+            let rc = if rets = [] then "-" else String.concat "/" (List.map (fun k -> codes (M.wk_codes k)) rets) in
+            go w' (Printf.sprintf "ok:%s:%s:%s" t (mains w') rc :: acc) r in
+      String.concat " " (go w0 [Printf.sprintf "ok:-:%s:-" (mains w0)] (ops_of ops))
   | _ -> "BADREQ"
 
 let () =
